@@ -55,6 +55,9 @@ type writeOnlyFile struct {
 
 func (w *writeOnlyFile) Read(p []byte) (n int, err error) {
 	// Read is required by hackpadfs.File
+	if err := w.file.closedErr("read"); err != nil {
+		return 0, err
+	}
 	return 0, &hackpadfs.PathError{Op: "read", Path: w.file.path, Err: hackpadfs.ErrNotImplemented}
 }
 
